@@ -210,7 +210,9 @@ def step (s : St) : List String → St × String
             | none => ns
           let s' := reattach { s with nodes := ns } eps
           (s', "ok lost=" ++ m.id ++ " upstream-at-leave=" ++ (if closedAtLeave then "closed" else "open") ++
-            " notified=" ++ toString (min notified Node.maxLeaveNotified) ++ " " ++ recoverLine s' m.id)
+            " notified=" ++ (if notified ≥ min others.length Node.maxLeaveNotified then "all"
+              else toString notified ++ "/" ++ toString (min others.length Node.maxLeaveNotified)) ++
+            " " ++ recoverLine s' m.id)
         | none => (s, "bad-op")
       | none => (s, "bad-op")
     | ["kill", i] =>
